@@ -16,7 +16,13 @@ def gen_scenarios(rep, tier, workdir):
     if res.coverage:
         never = [a for a, (d, c) in res.coverage.items() if c == 0]
         rep.vacuous += ["action never taken: " + a for a in never]
-    return core.read_ndjson(gen)
+    scen = core.read_ndjson(gen)
+    # the instance around the origin of times (start times <= 0, stop time exactly 0, negative save times)
+    gen0 = os.path.join(workdir, "gen_neg.ndjson")
+    res0 = core.tlc("MC_Driver", "MC_Driver_c07neg.cfg", workers=1, env={"GEN_FILE": gen0}, timeout=3000)
+    core.tlc_must_pass(res0, "MC_Driver c07neg")
+    rep.add_tlc("MC_Driver/c07neg", res0)
+    return scen + core.read_ndjson(gen0)
 
 
 def scenario_sig(sc, clsname):
